@@ -87,6 +87,13 @@ func c09LitFields(a ssa.Value, prefix string, out map[string]ssa.Value) {
 			for _, r2 := range *fa.Referrers() {
 				if st, ok := r2.(*ssa.Store); ok && st.Addr == ssa.Value(fa) {
 					out[name] = st.Val
+					// `r: ranges.Range{Len: l}` is lowered to a zero store of the whole sub-struct
+					// followed by stores of the named fields: the zero store sets nothing
+					if c, isC := st.Val.(*ssa.Const); isC && c.Value == nil {
+						if _, isStruct := c.Type().Underlying().(*types.Struct); isStruct {
+							delete(out, name)
+						}
+					}
 				}
 			}
 		}
@@ -307,7 +314,7 @@ func (s *c09Sym) summariseStop() {
 // C09.num
 
 func c09Num(r *fw.Run, p *fw.Program) {
-	ru := r.Rule("C09.num", "number->bits: the minimal BitLen bits of bi.Bytes() are selected by front padding (8-bitLen%8)%8, zero is one 0 bit; tonumber and .[i] right-shift the left-aligned bytes of exactly their range by (8-len%8)%8; tostring is the bytes of the range; toBytesBuffer copies exactly (r.Start, r.Len) of the binary's reader", 12)
+	ru := r.Rule("C09.num", "number->bits: the minimal BitLen bits of bi.Bytes() are selected by front padding (8-bitLen%8)%8, zero is one 0 bit; tonumber and .[i] right-shift the left-aligned bytes of exactly their range by (8-len%8)%8; tostring is the bytes of the range; toBytesBuffer copies exactly (r.Start, r.Len) of the binary's reader; .[i], tonumber and tostring return nothing but that value, a read error, or (for .[i]) null under index < 0; JQValueToString is JQValueToGoJQ", 16)
 
 	if fn := c09Fn(ru, p, "pkg/interp.toBitReaderEx"); fn != nil {
 		s := newC09Sym(fn)
@@ -368,7 +375,8 @@ func c09Num(r *fw.Run, p *fw.Program) {
 					zwhy = fmt.Sprintf("zero is converted to %d bits, want 1", k)
 					continue
 				}
-				if !s.E().Proves(c.Block(), fw.Cmp{P: L, Rel: fw.EQ}) {
+				// big.Int.BitLen is never negative: bitLen <= 0 is bitLen == 0
+				if !s.E().Proves(c.Block(), fw.Cmp{P: L, Rel: fw.EQ}) && !s.E().Proves(c.Block(), fw.Cmp{P: L, Rel: fw.LE}) {
 					zwhy = "the one-bit zero reader is not guarded by bitLen == 0"
 					continue
 				}
@@ -434,6 +442,8 @@ func c09Num(r *fw.Run, p *fw.Program) {
 		c, why := retMatch(fn, s, rsh(wholeBuf))
 		ru.Check(c != nil, "JQValueToNumber:bytes", p.Rel(fn.Pos()), "Rsh(SetBytes(toBytesBuffer(b.r).Bytes()), ...)", "tonumber: "+why)
 		if c != nil {
+			okR, whyR := c09ReturnsOnly(fn, c, nil)
+			ru.Check(okR, "JQValueToNumber:returns", p.Rel(fn.Pos()), "only the number or a read error is returned", "tonumber: "+whyR)
 			got := s.Of(c.Call.Args[2])
 			want := c09FrontPad(fw.PAtom("recv.r.Len"), fw.PConst(8))
 			ru.Check(got.Equal(want), "JQValueToNumber:shift", p.Rel(c.Pos()), "shift = "+got.String(), "tonumber shifts right by "+got.String()+", want "+want.String())
@@ -445,6 +455,10 @@ func c09Num(r *fw.Run, p *fw.Program) {
 		c, why := retMatch(fn, s, rsh(idxBuf))
 		ru.Check(c != nil, "JQValueIndex:range", p.Rel(fn.Pos()), "bits [r.Start+index*unit, +unit)", ".[i]: "+why)
 		if c != nil {
+			okR, whyR := c09ReturnsOnly(fn, c, func(b *ssa.BasicBlock) bool {
+				return s.E().Proves(b, fw.Cmp{P: fw.PAtom("a0"), Rel: fw.LT})
+			})
+			ru.Check(okR, "JQValueIndex:returns", p.Rel(fn.Pos()), "null only for index < 0, otherwise the number or a read error", ".[i]: "+whyR)
 			got := s.Of(c.Call.Args[2])
 			want := c09FrontPad(fw.PAtom("recv.unit"), fw.PConst(8))
 			ru.Check(got.Equal(want), "JQValueIndex:shift", p.Rel(c.Pos()), "shift = "+got.String(), ".[i] shifts right by "+got.String()+", want "+want.String())
@@ -469,6 +483,21 @@ func c09Num(r *fw.Run, p *fw.Program) {
 		s := newC09Sym(fn)
 		c, why := retMatch(fn, s, pCall("(*bytes.Buffer).String", wholeBuf))
 		ru.Check(c != nil, "JQValueToGoJQ:bytes", p.Rel(fn.Pos()), "string of toBytesBuffer(b.r)", "tostring: "+why)
+		if c != nil {
+			okR, whyR := c09ReturnsOnly(fn, c, nil)
+			ru.Check(okR, "JQValueToGoJQ:returns", p.Rel(fn.Pos()), "only the string or a read error is returned", "tostring: "+whyR)
+		}
+	}
+	if fn := c09Fn(ru, p, "(pkg/interp.Binary).JQValueToString"); fn != nil {
+		s := newC09Sym(fn)
+		ok, why := false, "no single return"
+		if rts := c09Returns(fn); len(rts) == 1 && len(rts[0].Results) == 1 {
+			ok, why = s.match(rts[0].Results[0], pCall("(pkg/interp.Binary).JQValueToGoJQ", pP("recv")))
+			if !ok {
+				ok, _ = s.match(rts[0].Results[0], pCall("(*bytes.Buffer).String", wholeBuf))
+			}
+		}
+		ru.Check(ok, "JQValueToString", p.Rel(fn.Pos()), "tostring is the bytes of the range (JQValueToGoJQ)", "tostring (JQValueToString): "+why)
 	}
 }
 
@@ -500,7 +529,7 @@ type c09LitSpec struct {
 }
 
 func c09Unit(r *fw.Run, p *fw.Program) {
-	ru := r.Rule("C09.unit", "unit arithmetic: length/size = r.Len/unit, start = r.Start/unit, stop = ceil((r.Start+r.Len)/unit); slice = (r.Start+start*unit, (end-start)*unit) keeping reader and unit; bits/bytes keys keep reader and range with unit 1/8; every other Binary construction (NewBinaryFromBitReader, openFile; decode value _bits/_bytes/ToBinary all over RootReader and InnerRange()) has the specified reader, range and unit; binaries are converted to readers by exactly their (r.Start, r.Len)", 17)
+	ru := r.Rule("C09.unit", "unit arithmetic: length/size = r.Len/unit, start = r.Start/unit, stop = ceil((r.Start+r.Len)/unit); slice = (r.Start+start*unit, (end-start)*unit) keeping reader and unit; bits/bytes keys keep reader and range with unit 1/8; every other Binary construction (NewBinaryFromBitReader, openFile; decode value _bits/_bytes/ToBinary all over RootReader and InnerRange()) has the specified reader, range and unit; binaries are converted to readers by exactly their (r.Start, r.Len); slices and the bits/bytes/decode-value views carry no padding (pad unset); Binary.ToBinary is the receiver itself", 18)
 
 	// summary used below: Range.Stop() = Start + Len
 	if fn := c09Fn(ru, p, "(pkg/ranges.Range).Stop"); fn != nil {
@@ -532,19 +561,28 @@ func c09Unit(r *fw.Run, p *fw.Program) {
 		ok, why := false, "no single return"
 		if len(rts) == 1 && len(rts[0].Results) == 1 {
 			ok, why = s.match(rts[0].Results[0], pCall("(pkg/interp.Binary).JQValueLength", pP("recv")))
+			if !ok {
+				// or the same quotient, as an int
+				v := c09StripIface(rts[0].Results[0])
+				if ok2, _ := s.is(v, "(recv.r.Len / recv.unit)"); ok2 {
+					if b, isB := v.Type().Underlying().(*types.Basic); isB && b.Kind() == types.Int {
+						ok, why = true, ""
+					}
+				}
+			}
 		}
 		ru.Check(ok, "JQValueSliceLen", p.Rel(fn.Pos()), "slice bounds are clamped with the length in units", "JQValueSliceLen: "+why)
 	}
 
 	specs := []c09LitSpec{
-		{"(pkg/interp.Binary).JQValueSlice", "", pLit("br", pP("recv.br"), "r.Start", pP("recv.r.Start + a0*recv.unit"), "r.Len", pP("a1*recv.unit - a0*recv.unit"), "unit", pP("recv.unit"))},
-		{"(pkg/interp.Binary).JQValueKey", "bits", pLit("br", pP("recv.br"), "r", pP("recv.r"), "unit", pP("1"))},
-		{"(pkg/interp.Binary).JQValueKey", "bytes", pLit("br", pP("recv.br"), "r", pP("recv.r"), "unit", pP("8"))},
+		{"(pkg/interp.Binary).JQValueSlice", "", pLit("br", pP("recv.br"), "r.Start", pP("recv.r.Start + a0*recv.unit"), "r.Len", pP("a1*recv.unit - a0*recv.unit"), "unit", pP("recv.unit"), "pad", pP("0"))},
+		{"(pkg/interp.Binary).JQValueKey", "bits", pLit("br", pP("recv.br"), "r", pP("recv.r"), "unit", pP("1"), "pad", pP("0"))},
+		{"(pkg/interp.Binary).JQValueKey", "bytes", pLit("br", pP("recv.br"), "r", pP("recv.r"), "unit", pP("8"), "pad", pP("0"))},
 		{"pkg/interp.NewBinaryFromBitReader", "", pLit("br", pP("a0"), "r.Start", pP("0"), "r.Len", pCallN("internal/bitiox.Len", 0, pP("a0")), "unit", pP("a1"), "pad", pP("a2"))},
 		// the three binary views of a decode value agree on reader and range (which range InnerRange is belongs to C05)
-		{"(pkg/interp.decodeValueBase).JQValueKey", "_bits", pLit("br", pP("recv.dv.RootReader"), "r", pCall("(*pkg/decode.Value).InnerRange", pP("recv.dv")), "unit", pP("1"))},
-		{"(pkg/interp.decodeValueBase).JQValueKey", "_bytes", pLit("br", pP("recv.dv.RootReader"), "r", pCall("(*pkg/decode.Value).InnerRange", pP("recv.dv")), "unit", pP("8"))},
-		{"(pkg/interp.decodeValueBase).ToBinary", "", pLit("br", pP("recv.dv.RootReader"), "r", pCall("(*pkg/decode.Value).InnerRange", pP("recv.dv")), "unit", pP("8"))},
+		{"(pkg/interp.decodeValueBase).JQValueKey", "_bits", pLit("br", pP("recv.dv.RootReader"), "r", pCall("(*pkg/decode.Value).InnerRange", pP("recv.dv")), "unit", pP("1"), "pad", pP("0"))},
+		{"(pkg/interp.decodeValueBase).JQValueKey", "_bytes", pLit("br", pP("recv.dv.RootReader"), "r", pCall("(*pkg/decode.Value).InnerRange", pP("recv.dv")), "unit", pP("8"), "pad", pP("0"))},
+		{"(pkg/interp.decodeValueBase).ToBinary", "", pLit("br", pP("recv.dv.RootReader"), "r", pCall("(*pkg/decode.Value).InnerRange", pP("recv.dv")), "unit", pP("8"), "pad", pP("0"))},
 	}
 	syms := map[string]*c09Sym{}
 	for _, sp := range specs {
@@ -590,8 +628,17 @@ func c09Unit(r *fw.Run, p *fw.Program) {
 		returned := false
 		for _, rt := range c09Returns(fn) {
 			for _, res := range rt.Results {
-				if s.litOf(c09StripIface(res)) == hit {
+				v := c09StripIface(res)
+				if s.litOf(v) == hit {
 					returned = true
+				}
+				// returned through a result variable the literal was assigned to
+				if ld, isLd := v.(*ssa.UnOp); isLd && ld.Op == token.MUL {
+					if a2, isA := ld.X.(*ssa.Alloc); isA && !c09Escapes(a2) {
+						if st := c09WholeStore(a2); st != nil && s.litOf(st.Val) == hit {
+							returned = true
+						}
+					}
 				}
 			}
 		}
@@ -678,6 +725,19 @@ func c09Unit(r *fw.Run, p *fw.Program) {
 		}
 	}
 
+	if fn := c09Fn(ru, p, "(pkg/interp.Binary).ToBinary"); fn != nil {
+		s := newC09Sym(fn)
+		ok, why := false, "no return"
+		for _, rt := range c09Returns(fn) {
+			if len(rt.Results) == 2 {
+				ok, why = s.is(rt.Results[0], "recv")
+				if ok && !c09IsNilConst(rt.Results[1]) {
+					ok, why = false, "an error is returned"
+				}
+			}
+		}
+		ru.Check(ok, "Binary.ToBinary", p.Rel(fn.Pos()), "a binary converts to itself (reader, range, unit kept)", "Binary.ToBinary: "+why)
+	}
 	if fn := c09Fn(ru, p, "(*pkg/interp.openFile).ToBinary"); fn != nil {
 		s := newC09Sym(fn)
 		ok, why := false, "no return"
@@ -933,10 +993,12 @@ func c09StoreDominates(st *ssa.Store, ins ssa.Instruction) bool {
 // C09.zero
 
 func c09Zero(r *fw.Run, p *fw.Program) {
-	ru := r.Rule("C09.zero", "ZeroReadAtSeeker.ReadBitsAt reports min(nBits, size-off) bits and zeroes bitio.BitsByteCount(that) leading bytes of the buffer (every byte a bit is reported in); BitsByteCount is n/8 rounded up; constructor and clone keep the size", 5)
+	ru := r.Rule("C09.zero", "ZeroReadAtSeeker.ReadBitsAt reports min(nBits, size-off) bits and zeroes bitio.BitsByteCount(that) leading bytes of the buffer (every byte a bit is reported in); BitsByteCount is n/8 rounded up; constructor and clone keep the size; a successful read is only answered for 0 <= bitOff < size (EOF at the end, borrowed from C01.clamp)", 5)
 	if fn := c09Fn(ru, p, "(*internal/bitiox.ZeroReadAtSeeker).ReadBitsAt"); fn != nil {
 		s := newC09Sym(fn)
 		n := fw.PAtom("min(" + c09SortedJoin(fw.PAtom("a1").String(), fw.PAtom("recv.nBits").Sub(fw.PAtom("a2")).String()) + ")")
+		// min written as `x := a; if b < x { x = b }` is the same value as the builtin
+		s.summariseMinPhis()
 		// BitsByteCount is summarised as ceil8(x) (its definition is checked separately below)
 		for _, c := range c09CallsTo(fn, fw.Mod+"/pkg/bitio.BitsByteCount") {
 			s.summarise(c, fw.PAtom("ceil8("+s.Of(c.Call.Args[0]).String()+")"))
@@ -1073,4 +1135,35 @@ func c09Zero(r *fw.Run, p *fw.Program) {
 func c09SortedJoin(a ...string) string {
 	sort.Strings(a)
 	return strings.Join(a, ", ")
+}
+
+// summariseMinPhis substitutes min(a, b) for every two-way phi that selects, on each incoming
+// edge, the operand proven not greater than the other one.
+func (s *c09Sym) summariseMinPhis() {
+	type sub struct {
+		ph *ssa.Phi
+		p  *fw.Poly
+	}
+	var subs []sub
+	fw.EachInstr(s.fn, func(ins ssa.Instruction) {
+		ph, ok := ins.(*ssa.Phi)
+		if !ok || len(ph.Edges) != 2 || !c09IsIntType(ph.Type()) {
+			return
+		}
+		pa, pb := s.Of(ph.Edges[0]), s.Of(ph.Edges[1])
+		if pa.Equal(pb) {
+			return
+		}
+		le := func(i int, x, y *fw.Poly) bool { // on edge i: x <= y
+			facts := s.E().EdgeFacts(ph.Block().Preds[i], ph.Block())
+			d := x.Sub(y)
+			return fw.ProvesFrom(facts, fw.Cmp{P: d, Rel: fw.LE}) || fw.ProvesFrom(facts, fw.Cmp{P: d, Rel: fw.LT})
+		}
+		if le(0, pa, pb) && le(1, pb, pa) {
+			subs = append(subs, sub{ph, fw.PAtom("min(" + c09SortedJoin(pa.String(), pb.String()) + ")")})
+		}
+	})
+	for _, x := range subs {
+		s.summarise(x.ph, x.p)
+	}
 }
